@@ -79,7 +79,7 @@ impl BlockAllocator {
         BlockStateTracker::register_block(data.id as usize, &data.file_path);
         FileStateTracker::register_file_if_absent(&data.file_path);
         FileStateTracker::add_block_to_file_state(&data.file_path);
-        FileStateTracker::set_block_locked(data.id as usize);
+        FileStateTracker::set_block_locked(&data.file_path);
         let ret = data.clone();
         data.offset += DEFAULT_BLOCK_SIZE;
         data.id += 1;
@@ -156,7 +156,7 @@ impl BlockAllocator {
         BlockStateTracker::register_block(ret.id as usize, &ret.file_path);
         FileStateTracker::register_file_if_absent(&ret.file_path);
         FileStateTracker::add_block_to_file_state(&ret.file_path);
-        FileStateTracker::set_block_locked(ret.id as usize);
+        FileStateTracker::set_block_locked(&ret.file_path);
         data.offset += alloc_size;
         data.id += 1;
         self.unlock();
@@ -239,32 +239,29 @@ struct BlockState {
 pub(super) struct BlockStateTracker {}
 
 impl BlockStateTracker {
-    fn map() -> &'static RwLock<HashMap<usize, BlockState>> {
-        static MAP: OnceLock<RwLock<HashMap<usize, BlockState>>> = OnceLock::new();
+    // Block ids are only unique within one instance (every allocator starts at 1), but this
+    // tracker is shared by all instances of the process: key it by (file, block id), otherwise
+    // one instance's reads and allocations update the reclamation state of another's files.
+    fn map() -> &'static RwLock<HashMap<(String, usize), BlockState>> {
+        static MAP: OnceLock<RwLock<HashMap<(String, usize), BlockState>>> = OnceLock::new();
         MAP.get_or_init(|| RwLock::new(HashMap::new()))
     }
 
     pub(super) fn register_block(block_id: usize, file_path: &str) {
         let map = Self::map();
         if let Ok(mut w) = map.write() {
-            w.entry(block_id).or_insert_with(|| BlockState {
+            w.entry((file_path.to_string(), block_id)).or_insert_with(|| BlockState {
                 is_checkpointed: AtomicBool::new(false),
                 file_path: file_path.to_string(),
             });
         }
     }
 
-    pub(super) fn get_file_path_for_block(block_id: usize) -> Option<String> {
-        let map = Self::map();
-        let r = map.read().ok()?;
-        r.get(&block_id).map(|b| b.file_path.clone())
-    }
-
-    pub(super) fn set_checkpointed_true(block_id: usize) {
+    pub(super) fn set_checkpointed_true(block_id: usize, file_path: &str) {
         let path_opt = {
             let map = Self::map();
             if let Ok(r) = map.read() {
-                if let Some(b) = r.get(&block_id) {
+                if let Some(b) = r.get(&(file_path.to_string(), block_id)) {
                     // Count a block towards its file's checkpoint counter only once, however
                     // often readers report it as consumed.
                     if b.is_checkpointed.swap(true, Ordering::AcqRel) {
@@ -334,27 +331,23 @@ impl FileStateTracker {
         flush_check(file_path);
     }
 
-    pub(super) fn set_block_locked(block_id: usize) {
-        if let Some(path) = BlockStateTracker::get_file_path_for_block(block_id) {
-            let map = Self::map();
-            if let Ok(r) = map.read() {
-                if let Some(st) = r.get(&path) {
-                    st.locked_block_ctr.fetch_add(1, Ordering::AcqRel);
-                }
+    pub(super) fn set_block_locked(file_path: &str) {
+        let map = Self::map();
+        if let Ok(r) = map.read() {
+            if let Some(st) = r.get(file_path) {
+                st.locked_block_ctr.fetch_add(1, Ordering::AcqRel);
             }
         }
     }
 
-    pub(super) fn set_block_unlocked(block_id: usize) {
-        if let Some(path) = BlockStateTracker::get_file_path_for_block(block_id) {
-            let map = Self::map();
-            if let Ok(r) = map.read() {
-                if let Some(st) = r.get(&path) {
-                    st.locked_block_ctr.fetch_sub(1, Ordering::AcqRel);
-                }
+    pub(super) fn set_block_unlocked(file_path: &str) {
+        let map = Self::map();
+        if let Ok(r) = map.read() {
+            if let Some(st) = r.get(file_path) {
+                st.locked_block_ctr.fetch_sub(1, Ordering::AcqRel);
             }
-            flush_check(path);
         }
+        flush_check(file_path.to_string());
     }
 
     pub(super) fn inc_checkpoint_for_file(file_path: &str) {
